@@ -766,7 +766,29 @@ def _t7(L, parser: Func, lp, col):
 # ------------------------------------------------------------------------------ T8
 
 
+def _t8_defaults(repo, L):
+    """asm-format fills in a format the user did not give from the file's extension: the option that is tested must be the
+    option that is filled in."""
+    cli = repo.try_func("cli", "asm_format")
+    if cli is None:
+        raise AnalysisError("anchor asm_format.cli vanished")
+    params = set(cli.params())
+    n = 0
+    for iff in [x for x in walk_shallow(cli.node) if isinstance(x, ast.If)]:
+        t = iff.test
+        if isinstance(t, ast.UnaryOp) and isinstance(t.op, ast.Not) and isinstance(t.operand, ast.Name) and t.operand.id in params and "format" in t.operand.id:
+            tested = t.operand.id
+            filled = [tg.id for st in iff.body if isinstance(st, ast.Assign) for tg in st.targets if isinstance(tg, ast.Name) and tg.id in params and "format" in tg.id]
+            for fl in filled:
+                n += 1
+                L.check(fl == tested, "T8", f"{cli.short}:default:{fl}", f"'{fl}' inferred from the file name exactly when '{fl}' was not given", f"'{fl}' is inferred from the file name when '{tested}' is missing, not when '{fl}' itself is: an explicit input format suppresses the inference for the output file (it is then written in the input's format under the other format's extension), and an explicit output format is overridden when no input format is given", cli.loc(iff), witness={"command": "asm-format -i AGP x.dat -o x.tpf"})
+    if n == 0:
+        # formats defaulted some other way (helper, conditional expression): nothing to say
+        return
+
+
 def _t8(repo, L):
+    _t8_defaults(repo, L)
     proc = repo.try_func("process_fh", "asm_format")
     if proc is None:
         raise AnalysisError("anchor asm_format.process_fh vanished")
